@@ -312,3 +312,112 @@ func VerifH_C16_renew() {
 	got.RenterSignature, got.HostSignature = types.Signature{}, types.Signature{}
 	vapi.Assert("renew.contract-is-the-agreed-one", got == renewal.NewContract)
 }
+
+// VerifH_C16_refresh: contract refresh on the host (full and partial rollover):
+// same obligations as renewal.
+//
+//verif:harness prop=C16 tier=quick replay=native require=renewed,failed-after-funding bounds="full or partial rollover; 1 renter input, 1..2 host inputs; basis relation, UpdateV2TransactionSet/pool failures and second-round selectors as in VerifH_C16_form (second round: honest / forged renewal signature / forged contract signature / absent); challenge selector"
+func VerifH_C16_refresh() {
+	partial := vapi.Bool("partial-rollover")
+	hostKey, renterKey := keyFromByte(1), keyFromByte(2)
+	tip := types.ChainIndex{Height: 50, ID: types.BlockID{7}}
+	var log []string
+	wal := &vWallet{reserved: map[types.SiacoinOutputID]bool{}, released: map[types.SiacoinOutputID]bool{}, nInputs: vapi.Int("host-inputs", 1, 2)}
+	wal.basis = tip
+	sameBasis := vapi.Bool("same-basis")
+	reqBasis := tip
+	if !sameBasis {
+		reqBasis = types.ChainIndex{Height: 49, ID: types.BlockID{6}}
+	}
+	ch := &vFormChain{vChain: vChain{tip: tip}, log: &log}
+	ch.failUpdate = vapi.Bool("update-fails")
+	ch.failPool = vapi.Bool("pool-rejects")
+	ec := testutil.VerifNewContractor(tip)
+	settings := vFormSettings{proto4.HostSettings{AcceptingContracts: true, MaxCollateral: types.NewCurrency64(1 << 50), MaxContractDuration: 10000, WalletAddress: wal.Address()}}
+	srv := rhp4.NewServer(hostKey, ch, contractorLog{ec, &log}, wal, settings, &vSectors{has: map[types.Hash256]bool{}})
+	hw := &hostWorld{hostKey: hostKey}
+	prices := hw.signedPrices(hostKey, time.Now().Add(time.Hour))
+	// the existing contract
+	id := types.FileContractID{0xc0}
+	existing := types.V2FileContract{
+		ProofHeight: 100, ExpirationHeight: 244,
+		RenterOutput:    types.SiacoinOutput{Value: types.NewCurrency64(300), Address: types.Address{0xbb}},
+		HostOutput:      types.SiacoinOutput{Value: types.NewCurrency64(700), Address: wal.Address()},
+		MissedHostValue: types.NewCurrency64(600), TotalCollateral: types.NewCurrency64(600),
+		RenterPublicKey: renterKey.PublicKey(), HostPublicKey: hostKey.PublicKey(), RevisionNumber: 5,
+	}
+	ec.VerifSetContract(id, existing, nil)
+	ec.VerifSetElement(id, types.V2FileContractElement{ID: id, StateElement: types.StateElement{LeafIndex: 9}, V2FileContract: existing})
+	params := proto4.RPCRefreshContractParams{ContractID: id, Allowance: types.NewCurrency64(1000), Collateral: types.NewCurrency64(500)}
+	req := proto4.RPCRefreshContractRequest{Prices: prices, Refresh: params, MinerFee: types.NewCurrency64(10), Basis: reqBasis}
+	badChallenge := vapi.Bool("forge-challenge")
+	if badChallenge {
+		req.ChallengeSignature = types.Signature(vapi.ForgedSig("challenge"))
+	} else {
+		req.ChallengeSignature = renterKey.SignHash(req.ChallengeSigHash(existing.RevisionNumber))
+	}
+	var renewal types.V2FileContractRenewal
+	rpcID, handler := proto4.RPCRefreshContractID, "refresh"
+	if partial {
+		renewal, _ = proto4.RefreshContractPartialRollover(existing, prices, wal.Address(), params)
+		rpcID, handler = proto4.RPCRefreshPartialID, "refresh-partial"
+	} else {
+		renewal, _ = proto4.RefreshContractFullRollover(existing, prices, wal.Address(), params)
+	}
+	renterCost, _ := proto4.RefreshCost(consensus.State{}, prices, renewal, req.MinerFee)
+	req.RenterInputs = []types.SiacoinElement{{ID: types.SiacoinOutputID{0xa0}, StateElement: types.StateElement{LeafIndex: 30},
+		SiacoinOutput: types.SiacoinOutput{Value: renterCost, Address: types.Address{0xbb}}}}
+	second := vapi.Int("second-round", 0, 3)
+	conn := &scriptConn{}
+	conn.in.Write(encReq(rpcID, &req))
+	conn.respond = func(c *scriptConn) []byte {
+		if c.round > 0 || second == 3 {
+			return nil
+		}
+		rsig := renterKey.SignHash(consensus.State{}.RenewalSigHash(renewal))
+		csig := renterKey.SignHash(consensus.State{}.ContractSigHash(renewal.NewContract))
+		if second == 1 {
+			rsig = types.Signature(vapi.ForgedSig("renewal"))
+		} else if second == 2 {
+			csig = types.Signature(vapi.ForgedSig("contract"))
+		}
+		return encResp(&proto4.RPCRefreshContractSecondResponse{RenterRenewalSignature: rsig, RenterContractSignature: csig,
+			RenterSatisfiedPolicies: []types.SatisfiedPolicy{{Policy: types.AnyoneCanSpend()}}})
+	}
+	err := srv.VerifHandle(handler, conn)
+	funded := len(wal.reserved) > 0
+	renewedID := id.V2RenewalID()
+	vapi.Assert("refresh.unlocked", !ec.VerifLocked(id))
+	if err != nil {
+		vapi.Assert("refresh.fail-records-nothing", !ec.VerifHasContract(renewedID) && ec.VerifContracts() == 1)
+		vapi.Assert("refresh.fail-broadcasts-nothing", wal.broadcast == 0)
+		cur, _, _ := ec.VerifContract(id)
+		vapi.Assert("refresh.fail-keeps-existing", cur == existing)
+		if funded {
+			vapi.Reach("failed-after-funding")
+			for rid := range wal.reserved {
+				vapi.Assert("refresh.host-release", wal.released[rid])
+			}
+		}
+		return
+	}
+	vapi.Reach("renewed")
+	vapi.Assert("refresh.gate", !badChallenge && second == 0 && !ch.failPool && (sameBasis || !ch.failUpdate))
+	vapi.Assert("refresh.recorded", ec.VerifHasContract(renewedID))
+	vapi.Assert("refresh.broadcast-once", wal.broadcast == 1)
+	pi, ai := -1, -1
+	for i, e := range log {
+		switch e {
+		case "pool":
+			pi = i
+		case "renew-contract":
+			ai = i
+		}
+	}
+	vapi.Assert("refresh.record-after-pool", pi >= 0 && ai > pi)
+	got, _, _ := ec.VerifContract(renewedID)
+	sh := consensus.State{}.ContractSigHash(got)
+	vapi.Assert("refresh.contract-signed", renterKey.PublicKey().VerifyHash(sh, got.RenterSignature) && hostKey.PublicKey().VerifyHash(sh, got.HostSignature))
+	got.RenterSignature, got.HostSignature = types.Signature{}, types.Signature{}
+	vapi.Assert("refresh.contract-is-the-agreed-one", got == renewal.NewContract)
+}
